@@ -2,6 +2,7 @@
   C05 — time-to-live: no entry is observable at or after insert time + ttl.
 -/
 import MiniMoka.Lemmas.UnsyncLookup
+import MiniMoka.Lemmas.SyncLookup
 
 namespace MiniMoka
 namespace Props
@@ -31,6 +32,22 @@ example : oracleC05 .unsync (some 5) (Unsync.trace { ttl := some 5, tti := some 
 
 example : oracleC05 .unsync (some 5) [(.ins 1 10, .ok), (.adv 5, .ok), (.get 1, .val (some 10))] = false := by
   decide
+
+/-- C05 on the concurrent cache driven by one thread: for every configuration, every
+history and every placement of `sync` (any queue state), a key yielded at reading `now`
+satisfies `now < t + ttl` with `t` the reading of its most recent insert/update. -/
+theorem C05_sync (p : Params) (hq : Sync.NoQuirks p) (h : List Op) :
+    oracleC05 .sync p.ttl (Sync.trace p h) = true := by
+  unfold oracleC05 Sync.trace
+  refine Sync.lookupOracle_of_coupled hq _ ?_ h {} {} (Sync.init_coupled p)
+  intro g kv hkv
+  simp only [Sync.allChecks, Bool.and_eq_true] at hkv
+  exact hkv.1.2
+
+example : oracleC05 .sync (some 5) (Sync.trace { ttl := some 5 }
+    [.ins 1 10, .adv 4, .get 1, .has 1, .adv 1, .get 1, .iter, .ins 1 11, .adv 4, .get 1, .sync,
+     .adv 1, .has 1, .iter]) = true := by
+  decide +kernel
 
 end Props
 end MiniMoka
